@@ -52,7 +52,8 @@ def stream_sbridge(ctx: Ctx):
                         continue
                     cases.append((f"BEval {k} {cver(Version(val))} {coqrun.cbool(b)}", f"eval: {m} at {val}"))
                     # the same atom written with the literal on the left (final literals only: see C11_reversed)
-                    if op != "~=" and "*" not in lit and not (Version(lit).is_prerelease or Version(lit).is_postrelease):
+                    # (theorem C11_reversed: final literals and the six comparison operators; the model function also covers "lit" ~= name and wildcard literals)
+                    if "*" in lit or not (Version(lit).is_prerelease or Version(lit).is_postrelease):
                         mr = MarkerExpression(name, op, lit, True)
                         try:
                             br = mr.evaluate({name: val})
